@@ -65,7 +65,8 @@ def build(case):
     out = Outcome()
     itp = cm.Interp(out, want_trace=False, want_views=False,
                     want_unitary=False)
-    return itp.run(case['hist'])
+    c = itp.run(case['hist'])
+    return None if itp.idle_cycle else c
 
 
 def draw_params(case, n):
